@@ -61,6 +61,11 @@ func RunC01(ctx *core.Ctx) {
 				rows := e.NewRows(n)
 				gen.FillRows(r, rows, prof)
 				cfg := gen.RandWriterCfg(r)
+				if k == 2 {
+					// default page buffer and dictionary limits: the whole list reaches the
+					// column writer and its dictionary in one call
+					cfg = gen.PlainWriterCfg(r)
+				}
 				c01Case(ctx, e, rows, cfg, c01Batches(r, n), r, k == 0 && e.Name == "T000")
 			}
 		}(e)
